@@ -22,6 +22,8 @@ var = Program(root, overlay=overlay)
 bad = 0
 for c in json.load(open(os.path.join(HERE, 'MANIFEST.json')))['checks']:
     pid = c['property_id']
+    if os.environ.get('ONLY') and pid not in os.environ['ONLY'].split(','):
+        continue
     try:
         a = {f.key for f in run_property(pid, prog=base, quiet=True).findings}
         rb = run_property(pid, prog=var, quiet=True)
